@@ -27,6 +27,7 @@ import (
 	"strconv"
 	"strings"
 	"testing"
+	"time"
 	"unicode/utf8"
 )
 
@@ -398,6 +399,124 @@ func vcfsRunStore(scn vcfsScenario, failK int) (events []vcfsEvent, nputs int) {
 	return r.events, nputs
 }
 
+// ---------------------------------------------------------------------------------------------
+// mode "flushdir": scenarios of CollFSFlushDir.tla (two directories; appends, Flush(path, short),
+// MarshalManifest; every started Keep write completes before the next call).  The calls are logged
+// as usual (for the CollFS / CollFSStore contract a flush is a stuttering step); in addition, at
+// quiescence after every call, an in-package accessor reports per file whether all its segments
+// are stored and whether any block is shared by files of different directories (event "stored",
+// compared with the model's prediction by checks/C09.py: a difference is drift, not a verdict).
+
+func vcfsSegState(fs CollectionFileSystem) (stored map[string]bool, cross bool, flushing bool) {
+	stored = map[string]bool{}
+	blockDir := map[string]string{}
+	cfs := fs.(*collectionFileSystem)
+	var walk func(dn *dirnode, dir string)
+	walk = func(dn *dirnode, dir string) {
+		dn.RLock()
+		defer dn.RUnlock()
+		for name, n := range dn.inodes {
+			switch n := n.(type) {
+			case *dirnode:
+				walk(n, dir+"/"+name)
+			case *filenode:
+				n.RLock()
+				all := true
+				for _, seg := range n.segments {
+					switch seg := seg.(type) {
+					case storedSegment:
+						// the whole locator: the fake Keep's hint numbers the PutB call, so equal
+						// contents written twice are still two blocks
+						h := seg.locator
+						if d, ok := blockDir[h]; ok && d != dir && seg.size > 0 {
+							cross = true
+						}
+						blockDir[h] = dir
+					case *memSegment:
+						all = false
+						if seg.flushing != nil {
+							select {
+							case <-seg.flushing:
+							default:
+								flushing = true
+							}
+						}
+					}
+				}
+				n.RUnlock()
+				stored[name] = all
+			}
+		}
+	}
+	walk(cfs.fileSystem.root.(*dirnode), ".")
+	return
+}
+
+func vcfsRunFlushDir(scn vcfsScenario) []vcfsEvent {
+	r := vcfsNewRun(scn)
+	maxBlockSize = scn.BS
+	r.keep.onDone = func(p *vcfsPut, ok bool) {
+		r.log(vcfsEvent{"ev": "putb", "k": p.K, "ok": ok, "insave": !p.BG, "n": len(p.Data)})
+	}
+	if r.start(vcfsEvent{"fail": "", "nameclass": ""}) != nil {
+		return r.events
+	}
+	r.events[0]["manifest"] = ""
+	handle := map[string]int{"a": 1, "b": 2, "c": 3, "e": 4}
+	path := map[string][]string{"a": {"a"}, "b": {"b"}, "c": {"d", "c"}, "e": {"d", "e"}}
+	r.do(vcfsOp{Op: "mkdir", P: []string{"d"}})
+	for _, f := range []string{"a", "b", "c", "e"} {
+		r.do(vcfsOp{Op: "open", H: handle[f], P: path[f], Acc: "rw", Cr: true})
+	}
+	observe := func() {
+		if r.dead {
+			return
+		}
+		var stored map[string]bool
+		var cross bool
+		r.guard("observe", func() {
+			// every started write has returned and its goroutine has finished
+			for i := 0; i < 20000; i++ {
+				var fl bool
+				stored, cross, fl = vcfsSegState(r.fs)
+				if !fl && r.keep.inflightNow() == 0 {
+					return
+				}
+				time.Sleep(250 * time.Microsecond)
+			}
+		})
+		if r.dead {
+			return
+		}
+		r.log(vcfsEvent{"ev": "stored", "files": stored, "cross": cross})
+		r.snap()
+	}
+	for _, st := range scn.FSteps {
+		if r.dead {
+			break
+		}
+		switch st.Op {
+		case "append":
+			r.do(vcfsOp{Op: "write", H: handle[st.F], D: st.D})
+			observe()
+		case "flush":
+			var err error
+			r.guard("flush", func() { err = r.fs.Flush(st.Path, st.Short) })
+			if !r.dead {
+				r.log(vcfsEvent{"ev": "flush", "kind": "flush:" + st.Path, "short": st.Short, "ok": err == nil})
+			}
+			observe()
+		case "marshal":
+			r.save("marshal")
+			observe()
+		}
+	}
+	if !r.dead {
+		r.posReads()
+	}
+	return r.events
+}
+
 func TestVerifC09(t *testing.T) {
 	var scns []*vcfsScenario
 	vReadNDJSON(os.Getenv("VERIF_SCENARIOS"), func() interface{} {
@@ -410,6 +529,13 @@ func TestVerifC09(t *testing.T) {
 	ntr := 0
 	for _, s := range scns {
 		fmt.Fprintf(os.Stderr, "VERIF-SCN %d\n", s.ID)
+		if s.Mode == "flushdir" {
+			for _, ev := range vcfsRunFlushDir(*s) {
+				tw.Write(ev)
+			}
+			ntr++
+			continue
+		}
 		if s.Fail == "kth_all" {
 			// failure of the k-th write, for every k: count the writes of a failure-free run first
 			base := *s
